@@ -1,0 +1,22 @@
+//go:build verif
+
+// Contracts for package rawdb, checked by /verif/govc (comment-only; see /verif/DESIGN.md).
+package rawdb
+
+// Database readers as functions of (database, key) for the duration of one call; they modify nothing
+// that is modelled (leveldb/memorydb are outside the subset).
+//@ spec func appHashAt(db kaidb.KeyValueReader, height int) common.Hash
+//@ spec func metaAt(db kaidb.Reader, height int) *types.BlockMeta
+//@ spec func cstateAt(db kaidb.Reader, height int) *kstate.State
+//@ spec func valsInfoAt(db kaidb.Reader, hash common.Hash) *kstate.ValidatorsInfo
+//@ spec func paramsInfoAt(db kaidb.Reader, hash common.Hash) *kstate.ConsensusParamsInfo
+//@ trusted func ReadAppHash(db kaidb.KeyValueReader, height uint64) (r common.Hash)
+//@   ensures r == appHashAt(db, height)
+//@ trusted func ReadBlockMeta(db kaidb.Reader, height uint64) (r *types.BlockMeta)
+//@   ensures r == metaAt(db, height) && (r != nil ==> r.Header != nil)
+//@ trusted func ReadConsensusStateHeight(db kaidb.Reader, height uint64) (r *kstate.State)
+//@   ensures r == cstateAt(db, height)
+//@ trusted func ReadConsensusValidatorsInfo(db kaidb.Reader, hash common.Hash) (r *kstate.ValidatorsInfo)
+//@   ensures r == valsInfoAt(db, hash)
+//@ trusted func ReadConsensusParamsInfo(db kaidb.Reader, hash common.Hash) (r *kstate.ConsensusParamsInfo)
+//@   ensures r == paramsInfoAt(db, hash)
